@@ -702,7 +702,7 @@ pub fn run(args: &Args) -> i32 {
     )));
     let tiny = args.extra.get("budget").map(|b| b == "tiny").unwrap_or(false);
     let (graphs, cap, prng) = if tiny { (4, 50, 20) } else { args.tier.pick((1_500, 2_000, 300_000), (10_000, 20_000, 4_000_000)) };
-    let dog = Dog::start(check, 60);
+    let dog = Dog::start(check, if args.extra.get("budget").is_some() { 3_600 } else { 60 });
     vmon::par_cases(check, graphs, args.threads, |_i, rng| exhaustive_graph(check, &dog, rng, cap));
     vmon::par_cases(check, prng, args.threads, |_i, rng| prng_graph(check, &dog, rng));
     dog.stop();
